@@ -35,6 +35,9 @@ def run(ctx):
     same_node(ctx, f, cfg)
     rmw(ctx, f, cfg)
     rollover(ctx, f, cfg)
+    # the roll-over resets every counter unconditionally (a bucket that keeps old counts makes totals exceed what was recorded)
+    from . import rules_C02
+    rules_C02.reset_coverage(ctx, f, cfg)
 
 
 def one_node(ctx, f, g, cfg):
@@ -128,6 +131,24 @@ def one_node(ctx, f, g, cfg):
         ctx.instance("C14.one-node/retained", p, "created node is stored in the map on every path: %s" % retained, "true", retained, cfg)
         if not retained:
             ctx.violation("C14.one-node", "C14.one-node|not-retained|" + p.replace("core::", "", 1), "%s creates a ResourceNode that can be returned without being stored in RESOURCE_NODE_MAP: later entries of that resource get a different node" % p, cb.loc(), config=cfg)
+    # a registered node is never taken out of the map again (entries in flight keep accounting on it; a replacement splits the totals):
+    # the only removing operation is the whole-map reset used by tests
+    removers = []
+    for p, b in f.bodies.items():
+        sl2 = None
+        for bb, t in b.calls():
+            nm = callee_def(t).rsplit("::", 1)[-1]
+            if nm not in ("remove", "remove_entry", "retain", "drain", "clear", "take", "swap_remove") or not t["args"]:
+                continue
+            sl2 = sl2 or Slicer(f, b)
+            if any(x.startswith("static:") and x.endswith("RESOURCE_NODE_MAP") for x in sl2.of_operand(t["args"][0])):
+                removers.append((p, nm, bb))
+    bad_rm = [(p, nm, bb) for p, nm, bb in removers if not (p.endswith("::reset_resource_map") and nm == "clear")]
+    ctx.instance("C14.one-node/never-replaced", "RESOURCE_NODE_MAP", {"removing_operations": [(p.replace("core::", "", 1), nm) for p, nm, _ in removers]},
+                 "only reset_resource_map().clear()", not bad_rm, cfg)
+    for p, nm, bb in bad_rm:
+        ctx.violation("C14.one-node", "C14.one-node|replaced|%s|%s" % (p.replace("core::", "", 1), nm),
+                      "%s takes a registered node out of RESOURCE_NODE_MAP (%s): entries in flight keep the old node while later ones get a new one" % (p, nm), f.bodies[p].loc(bb), config=cfg)
     ctx.instance("C14.one-node/constructors", "ResourceNode::new callers", sorted(set(ctors)), "only the get-or-create function and the inbound-node static", not extra, cfg)
     for p in extra:
         ctx.violation("C14.one-node", "C14.one-node|constructor|" + p.replace("core::", "", 1), "%s constructs a ResourceNode outside the node map" % p, f.bodies[p].loc(), config=cfg)
